@@ -1,6 +1,7 @@
 """C11: the compile pipeline is total: code object or SyntaxError, always (partial: the yacc driver and the grammar
 actions are exercised, not modelled)."""
 import os, subprocess, collections
+import common
 from common import ROOT, REPO, GOENV, LEAN, WORK
 
 
@@ -53,8 +54,46 @@ CONFIG = {
 }
 
 
+def _enc06(text):
+    return text.replace("\\", "\\\\").replace("\n", "\\n").replace(" ", "\\s").replace("\t", "\\t").replace("\r", "\\r")
+
+
+def borrowed_programs(run):
+    """Programs of OTHER properties' generators (C03's scope trees: nested functions/classes/lambdas/comprehensions with
+    global/nonlocal/del placements) pushed through the whole pipeline: the outcome must be a code object or a SyntaxError.
+    Token-sequence enumeration cannot reach the symtable/compile internals (makeClosure, cell/free tables) these exercise."""
+    drv = os.path.join(common.LEAN, ".lake", "build", "bin", "gpymodel-C03")
+    hbin = os.path.join(WORK, "gpyh.bin")
+    if not (os.path.exists(drv) and os.path.exists(hbin)):
+        run.cov["borrowed_programs"] = "skipped: gpymodel-C03 not built"
+        return
+    import subprocess
+    p = subprocess.run([drv, "C03", getattr(run, "gen_tier", run.tier), str(run.seed)], stdout=subprocess.PIPE, stderr=subprocess.DEVNULL, text=True)
+    progs = []
+    seen = set()
+    for l in p.stdout.splitlines():
+        src = l.split("\t", 1)[0].replace("\\n", "\n")
+        if src and src not in seen:
+            seen.add(src)
+            progs.append(src)
+    cap = 400000 if run.tier == "thorough" else 60000
+    if len(progs) > cap:   # keep every family: take an even stride, not a prefix
+        stride = (len(progs) + cap - 1) // cap
+        progs = progs[::stride]
+    lines = ["one exec " + _enc06(s + "\n") for s in progs]
+    out = common.run_impl_sharded(hbin, ["C11"], lines, per_case_timeout=600.0)
+    bad = [(s, (o or "MISSING").split("\t")[0]) for s, o in zip(progs, out) if (o or "MISSING").split("\t")[0] not in ("ok", "SKIPPED")]
+    run.cov["borrowed_programs"] = {"from": "gpymodel-C03 (scope trees)", "compiled": len(progs), "not_code_or_syntaxerror": len(bad)}
+    run.cov["evaluations"] = run.cov.get("evaluations", 0) + len(progs)
+    for s, v in sorted(bad, key=lambda t: len(t[0]))[:5]:
+        run.violation({"kind": "input", "input": "one exec " + _enc06(s + "\n"), "impl": v, "model": "-", "spec": "ok",
+                       "note": "a program of C03's generator: compile must yield a code object or a SyntaxError-family exception"})
+    run.say(f"borrowed programs (C03 scope trees): {len(progs)} compiled, {len(bad)} neither code nor SyntaxError")
+
+
 def extra(run):
     """distribution of the generated cases by tag"""
+    borrowed_programs(run)
     dist = collections.Counter()
     texts = 0
     try:
